@@ -21,8 +21,8 @@ from .. import sched
 PID = "C13"
 
 DOCS = [
-    ("render", "a *b* `c`\n\n- d\n- e\n"),
-    ("render", "intro line\n# Heading\ntext\n> quote\n\n[x]: /u 't'\n\n[x] ![i](/s)\n"),
+    ("render", "a *b* `c`\n\n- d\n- e\n\n```py first\nx\n```\n"),
+    ("render", "intro line\n# Heading\ntext\n> quote\n\n[x]: /u 't'\n\n[x] ![i](/s)\n\n~~~rb\ny\n~~~\n"),
     ("parse", "1. one\n2. two\nlazy\n\n```py\ncode\n```\n***\n"),
     ("renderInline", "~~s~~ **t** <http://x.y> &amp;"),
 ]
@@ -106,13 +106,13 @@ def one_run(job):
     md = make_md(cfg)
     run = sched.Run(md, [(api, doc, digest_of(api)) for api, doc in calls], fnid, opcodes=opcodes)
     ev = run.execute(schedule)
-    return {"ev": ev, "full": full, "solo": solo_results(cfg, calls)}, run.count, run.where
+    return {"ev": ev, "full": full, "solo": solo_results(cfg, calls)}, run.count, run.where, run.shared_lines
 
 
 def plan_points(cfg, calls, opcodes=True):
     """Count events of the first call when run unpre-empted on a shared instance (planning run)."""
-    _, cnt, where = one_run((cfg, calls, [], opcodes))
-    return cnt, where
+    _, cnt, where, shared = one_run((cfg, calls, [], opcodes))
+    return cnt, where, shared
 
 
 def nested_run(job):
@@ -150,6 +150,11 @@ def nested_run(job):
             reenter()
             return False
         md.inline.ruler.before("emphasis", "verif_reenter", inline_rule)
+    elif site == "highlight":
+        def hl(content, lang, attrs):
+            reenter()
+            return ""
+        md.options["highlight"] = hl
     else:  # render rule on text tokens
         from markdown_it.renderer import RendererHTML
 
@@ -184,6 +189,8 @@ def _install_noop(md, site):
         md.block.ruler.before("paragraph", "verif_reenter", lambda st, a, b, s: False, {"alt": ["paragraph"]})
     elif site == "inline":
         md.inline.ruler.before("emphasis", "verif_reenter", lambda st, s: False)
+    elif site == "highlight":
+        md.options["highlight"] = lambda content, lang, attrs: ""
     else:
         from markdown_it.renderer import RendererHTML
         md.add_render_rule("text", lambda self, tokens, idx, options, env: RendererHTML.text(self, tokens, idx, options, env))
@@ -197,19 +204,23 @@ def build_jobs(tier, rnd):
     for cfg in cfgs:
         for pa in (pairs if tier == "thorough" else pairs[:3]):
             calls = list(pa)
-            cnt, where = plan_points(cfg, calls)
+            cnt, where, shared = plan_points(cfg, calls)
             n0 = cnt[0]
             inr = set(where[0])
             others = [k for k in range(1, n0 + 1) if k not in inr]
             inr = sorted(inr)
+            # every distinct line of the shared-object modules that the first call executes, at its first occurrence
+            firsts = sorted(set(shared[0].values()))
+            info["shared_module_lines"] = info.get("shared_module_lines", 0) + len(firsts)
             if tier == "quick":
-                others = rnd.sample(others, min(60, len(others)))
+                others = sorted(set(rnd.sample(others, min(60, len(others))) + firsts))
                 if jobs:  # quick: every bytecode of ruler.py for the first (config, pair), a sample for the rest
                     inr = sorted(rnd.sample(inr, min(250, len(inr))))
             info["ruler_points"] += len(inr)
             info["other_points"] += len(others)
             for k in inr + others:
-                jobs.append((cfg, calls, [(0, k)], True))
+                # A runs up to its k-th event and is parked, B runs to completion, then A resumes
+                jobs.append((cfg, calls, [(0, k), (1, None)], True))
             # two pre-emptions: A until k1, B until k2, A done, B done
             m = 150 if tier == "quick" else 1500
             n1 = cnt[1]
@@ -219,7 +230,7 @@ def build_jobs(tier, rnd):
                 jobs.append((cfg, calls, [(0, k1), (1, k2)], True))
         if tier == "thorough":
             calls = [DOCS[0], DOCS[1], DOCS[2]]
-            cnt, where = plan_points(cfg, calls)
+            cnt, where, _sh = plan_points(cfg, calls)
             for _ in range(1500):
                 sch = []
                 for _s in range(rnd.randint(2, 5)):
@@ -264,8 +275,8 @@ def run(tier, rep):
     njobs = []
     for cfg in (["commonmark", "js-default"] if tier == "quick" else CONFIGS):
         for outer, inner in ((DOCS[0], DOCS[1]), (DOCS[1], DOCS[0]), (DOCS[1], DOCS[2])):
-            for site in ("core", "block", "inline", "render"):
-                if site == "render" and not outer[0].startswith("render"):
+            for site in ("core", "block", "inline", "render", "highlight"):
+                if site in ("render", "highlight") and not outer[0].startswith("render"):
                     continue
                 for i in range(1, 41 if tier == "quick" else 200):
                     njobs.append((cfg, outer, inner, site, i))
@@ -285,9 +296,9 @@ def run(tier, rep):
     rep.cov["evaluations"] = len(jobs) + len(keep)
     rep.cov["distinct_nontrivial"] = len({json.dumps([j[0], j[1], j[2]]) for j in jobs if j[2]}) + len(keep)
     rep.cov["rule"] = ("one case = (instance state, calls, schedule); schedules pre-empt the first call at every bytecode "
-                       "event inside ruler.py and at line events elsewhere (quick: sampled, thorough: all), plus seeded "
+                       "event inside ruler.py and at line events elsewhere (quick: the first occurrence of every distinct line of the shared-object modules plus a sample, thorough: all), plus seeded "
                        "double pre-emptions and (thorough) 3-thread schedules; nested = re-entry from core/block/inline/"
-                       "render user code at the i-th invocation; non-trivial = at least one pre-emption / one re-entry")
+                       "render / highlight user code at the i-th invocation; non-trivial = at least one pre-emption / one re-entry")
     rep.cov["bounds"] = dict(info, getrules_observations=n_get, schedules=len(jobs), nested=len(keep))
     rep.assumptions += ["pre-emption is explored under the GIL at bytecode granularity inside ruler.py and line granularity "
                         "elsewhere; true parallelism (free-threaded builds) is out of reach of sys.settrace",
@@ -302,7 +313,7 @@ def replay(case, rep):
         if v[0][0] != "ok":
             rep.violation(case.get("key", "nested"), case)
         return
-    job = (case["config"], [tuple(c) for c in case["calls"]], [tuple(s) for s in case["schedule"]], True)
+    job = (case["config"], [tuple(c) for c in case["calls"]], [tuple(x) for x in case["schedule"]], True)
     t = one_run(job)[0]
     v, _ = C.validate_traces("LazyCompileTrace", [t])
     if v[0][0] != "ok":
@@ -310,7 +321,7 @@ def replay(case, rep):
 
 
 def selftest():
-    job = ("commonmark", [DOCS[0], DOCS[1]], [(0, 30)], True)
+    job = ("commonmark", [DOCS[0], DOCS[1]], [(0, 30), (1, None)], True)
     t = one_run(job)[0]
     v, _ = C.validate_traces("LazyCompileTrace", [t])
     assert v[0][0] == "ok", v
